@@ -188,6 +188,19 @@ def run(ctx):
     ctx.extra["mask_index_operations"] = ni
     ctx.require(nj >= 8, f"only {nj} joint filters found")
     ctx.floor("C09.6", 8)
+    # ---- C09.7 field order of what the proposals hand to the live array ------------------------------
+    from ..rules import fieldorder as _fo
+    from .. import tables as _t
+    _prop = [prog.cls(_t.PROPOSAL)] + prog.subclasses(prog.cls(_t.PROPOSAL))
+    _stores = _fo.pool_stores(prog, [c_ for c_ in _prop if prog.cls(_t.IFP) not in prog.mro(c_)])
+    ctx.require(len(_stores) >= 3, "pool assignments (self.samples = ...) not found in the populate methods")
+    for _f, _s in _stores:
+        _ok, _why = _fo.canonical(prog, _f, _s.value)
+        ctx.ob("R-FIELDS", "C09.7", _f, "the pool is stored in canonical field order (model.names, then the non-sampling fields): numpy copies a pool row into the live array by position", _ok, _why, node=_s)
+    _pl = ctx.fn(_t.NS + ".populate_live_points")
+    from ..pat import find_stmt as _fst
+    ctx.ob("R-FIELDS", "C09.7", _pl, "the live array is allocated with the same canonical field order (names=self.model.names)", len(_fst("$$lp = empty_structured_array(self.nlive, names=self.model.names)", _pl.node)) == 1, "")
+    ctx.floor("C09.7", 4)
     ctx.assumptions += ["model.new_point draws inside the prior bounds (user model contract)", "that the pool is *distributed* as the prior restricted to the contour is statistical and not decided; the x'-prior path of FlowProposal.populate is gated by rejection weights (a value-level argument)"]
 
 
